@@ -118,11 +118,14 @@ Elapsed(fn, last) ==
   LET d == fn - last IN
   IF d >= Hyper \div 2 THEN d - Hyper ELSE IF d < -(Hyper \div 2) THEN d + Hyper ELSE d
 
-\* frames strictly between `last` and `last + e` whose downlink row belongs to c, in order
-LostFrames(L, c, last, e) ==
-  SelectSeq([i \in 1..e - 1 |-> (last + i) % Hyper], LAMBDA f : Row(L, f)[1] = c)
-
 Call(dir, c, bid, f) == <<dir, c, bid, f, IF dir = DL THEN D(c).rxh ELSE D(c).txh>>
+
+\* the substituted calls: one per frame strictly between `last` and `last + e`
+\* whose own downlink row belongs to c, with the burst id of that row, in order
+\* (one pass over the gap)
+SubstCalls(L, c, last, e) ==
+  SelectSeq([i \in 1..e - 1 |-> LET f == (last + i) % Hyper r == Row(L, f) IN <<DL, r[1], r[2], f, D(c).rxh>>],
+            LAMBDA x : x[2] = c)
 
 (* l1sched_handle_rx_burst(): the burst of frame fn on a timeslot.  The
    downlink row of fn % period names the lchan and the burst id.  For an active
@@ -144,14 +147,14 @@ RxBurst(tn, fn, L) ==
       LET st == s.lch[c]
           e == Elapsed(fn, st.last)
           subst == st.np /\ e > 0 /\ e <= L.period
-          lost == IF subst THEN LostFrames(L, c, st.last, e) ELSE <<>>
+          lost == IF subst THEN SubstCalls(L, c, st.last, e) ELSE <<>>
           looked == IF subst THEN {Idx(L, (st.last + i) % Hyper) : i \in 1..e - 1} ELSE {} IN
       IF st.np /\ e < 0 THEN
         ts' = ts /\ out' = Res("rx", tn, -EALREADY, bid, 0, <<>>, {Idx(L, fn)})
       ELSE
         /\ ts' = [ts EXCEPT ![tn].lch[c] = [act |-> TRUE, np |-> TRUE, last |-> fn]]
         /\ out' = Res("rx", tn, 0, bid, 0,
-                      [i \in 1..Len(lost) |-> Call(DL, c, Row(L, lost[i])[2], lost[i])] \o <<Call(DL, c, bid, fn)>>,
+                      lost \o <<Call(DL, c, bid, fn)>>,
                       {Idx(L, fn)} \cup looked)
 
 (* l1sched_pull_burst(): the uplink row of fn % period names the lchan and the
@@ -236,7 +239,7 @@ RxCallsOrdered ==
 ----------------------------------------------------------------------------
 (* Made-up small constants for MC_SchedDispatch.cfg: lchan types
    0 idle, 1 rx-only auto ("SCH"), 2 tx-only auto ("RACH"), 3 main + 4 its
-   SACCH (same channel number), 5 a second dedicated channel. *)
+   SACCH (same channel number), 5 a second dedicated channel (uplink frames only). *)
 MCDesc ==
   << [rx |-> FALSE, tx |-> FALSE, auto |-> FALSE, chan_nr |-> 0,  link_id |-> 0,  rxh |-> 0, txh |-> 0],
      [rx |-> TRUE,  tx |-> FALSE, auto |-> TRUE,  chan_nr |-> 0,  link_id |-> 0,  rxh |-> 2, txh |-> 0],
@@ -247,8 +250,9 @@ MCDesc ==
 
 MCLayA == [cfg |-> 1, period |-> 4, slotmask |-> 3, mask |-> <<1, 2, 3>>,
            frames |-> << <<1, 0, 2, 0>>, <<3, 0, 0, 0>>, <<3, 1, 3, 0>>, <<0, 0, 3, 1>> >>]
+\* lchan 3 owns frames on both sides of the period boundary with distinct burst ids
 MCLayB == [cfg |-> 2, period |-> 6, slotmask |-> 1, mask |-> <<3, 4, 5>>,
-           frames |-> << <<3, 0, 5, 1>>, <<3, 1, 3, 0>>, <<4, 0, 3, 1>>, <<5, 0, 4, 0>>, <<0, 0, 0, 0>>, <<5, 1, 5, 0>> >>]
+           frames |-> << <<3, 1, 5, 1>>, <<3, 2, 3, 0>>, <<3, 3, 3, 1>>, <<4, 0, 4, 0>>, <<0, 0, 0, 0>>, <<3, 0, 5, 0>> >>]
 \* combination 3 has no layout at all, combination 2 none for timeslot 1
 MCLookup(c, tn) == IF c = 1 THEN MCLayA ELSE IF c = 2 /\ tn = 0 THEN MCLayB ELSE NoLayout
 =============================================================================
